@@ -1172,16 +1172,46 @@ example : deviceAttest01Validate wHash true { wCh with value := s "123" }
     (wIn .step (.step ⟨wX5c, true, true, .rsa, fun m => m == s "tok.thumb", true, .value (s "123")⟩)) =
     .val ⟨.valid, .none, .ok, .none, true⟩ := by decide
 
-/-- **The validator can abort (reproduced on the real code)**: a `step` attestation whose
-    leaf key is an EC key on a curve other than P-256, or whose serial-number extension parses
-    with trailing bytes, makes `doStepAttestationFormat` return `WrapError(…, nil, …)` = a nil
-    `*Error` inside a non-nil `error`; `deviceAttest01Validate` then reads `acmeError.Status`. -/
-theorem device_attest_crashes :
-    deviceAttest01Validate wHash true wCh
-      (wIn .step (.step ⟨wX5c, true, true, .ecOther, fun _ => true, true, .absent⟩)) = .crash ∧
-    deviceAttest01Validate wHash true wCh
-      (wIn .step (.step ⟨wX5c, true, true, .ecP256, fun _ => true, true, .trailing⟩)) = .crash := by
-  constructor <;> decide
+/-! ### totality of device-attest-01 (full strength since fix b9777f2) -/
+
+/-- `doStepAttestationFormat` as it was before fix b9777f2: two refusals were built with
+    `WrapError(typ, nil, …)`, i.e. as a nil `*Error` -/
+def doStepPreFix (ch : Ch) (f : StepFacts) : Fmt Str :=
+  match x5cCheck .rejectedIdentifier f.x5c with
+  | some (.bad e) => .bad e
+  | some _ => .ise
+  | none =>
+    if !f.sigPresent then .bad .badAttestationStatement
+    else if !f.sigCborOk then .bad .badAttestationStatement
+    else match ch.thumb with
+      | none => .ise
+      | some th =>
+        if f.key = .ecOther then .nilErr
+        else if f.key = .unsupported then .bad .badAttestationStatement
+        else if !f.verifies (keyAuth ch.token th) then .bad .badAttestationStatement
+        else if !f.fpOk then .ise
+        else match f.serial with
+          | .absent => .data []
+          | .malformed => .bad .badAttestationStatement
+          | .trailing => .nilErr
+          | .value d => .data d
+
+/-- **Historic (pre-fix b9777f2, reproduced on that tree)**: a `step` attestation whose leaf key is
+    an EC key on a curve other than P-256, or whose serial-number extension parses with trailing
+    bytes, made the format function return a nil `*Error`, which `deviceAttest01Validate`
+    dereferences (`acmeError.Status`) — a nil-pointer abort of the challenge handler. -/
+theorem device_attest_crashes_historic :
+    doStepPreFix wCh ⟨wX5c, true, true, .ecOther, fun _ => true, true, .absent⟩ = .nilErr ∧
+    doStepPreFix wCh ⟨wX5c, true, true, .ecP256, fun _ => true, true, .trailing⟩ = .nilErr :=
+  ⟨rfl, rfl⟩
+
+/-- the same two inputs on the current code: refusals that make the challenge invalid -/
+example : deviceAttest01Validate wHash true wCh
+    (wIn .step (.step ⟨wX5c, true, true, .ecOther, fun _ => true, true, .absent⟩)) =
+    .val ⟨.invalid, .badAttestationStatement, .ok, .none, false⟩ := by decide
+example : deviceAttest01Validate wHash true wCh
+    (wIn .step (.step ⟨wX5c, true, true, .ecP256, fun _ => true, true, .trailing⟩)) =
+    .val ⟨.invalid, .badAttestationStatement, .ok, .none, false⟩ := by decide
 
 theorem doApple_ne_nilErr (f : AppleFacts) : doApple f ≠ .nilErr := by
   unfold doApple
@@ -1195,15 +1225,14 @@ theorem doTpm_ne_nilErr (h : Hash) (ch : Ch) (f : TpmFacts) : doTpm h ch f ≠ .
   repeat' split at hd
   all_goals simp_all
 
-theorem doStep_nilErr (ch : Ch) (f : StepFacts) (hd : doStep ch f = .nilErr) :
-    f.key = .ecOther ∨ f.serial = .trailing := by
-  unfold doStep at hd
+theorem doStep_ne_nilErr (ch : Ch) (f : StepFacts) : doStep ch f ≠ .nilErr := by
+  unfold doStep
+  intro hd
   repeat' split at hd
   all_goals simp_all
 
-/-- apart from those two inputs the validator is total -/
-theorem device_attest_total_partial (h : Hash) (dbOk : Bool) (ch : Ch) (i : DaIn)
-    (hs : ∀ f, i.facts = .step f → f.key ≠ .ecOther ∧ f.serial ≠ .trailing) :
+/-- **device-attest-01 validation never aborts**, for every payload, format and fact. -/
+theorem device_attest_total (h : Hash) (dbOk : Bool) (ch : Ch) (i : DaIn) :
     ∃ o, deviceAttest01Validate h dbOk ch i = .val o := by
   unfold deviceAttest01Validate
   repeat' split
@@ -1223,10 +1252,9 @@ theorem device_attest_total_partial (h : Hash) (dbOk : Bool) (ch : Ch) (i : DaIn
     | data d => simp only; repeat' split
                 all_goals exact ⟨_, rfl⟩
   · rename_i f
-    obtain ⟨hk, hser⟩ := hs f hfac
     unfold daStep
     cases hd : doStep ch f with
-    | nilErr => rcases doStep_nilErr ch f hd with h1 | h1 <;> simp_all
+    | nilErr => exact absurd hd (doStep_ne_nilErr ch f)
     | ise => exact ⟨_, rfl⟩
     | bad e => exact ⟨_, rfl⟩
     | data d => simp only; split <;> exact ⟨_, rfl⟩
@@ -1237,6 +1265,20 @@ theorem device_attest_total_partial (h : Hash) (dbOk : Bool) (ch : Ch) (i : DaIn
     | ise => exact ⟨_, rfl⟩
     | bad e => exact ⟨_, rfl⟩
     | data d => simp only; split <;> exact ⟨_, rfl⟩
+
+/-- `Challenge.Validate` never aborts on a modelled challenge type (ParseIP's 16-byte results) -/
+theorem validate_total (h : Hash) (cfg : Cfg) (dbOk : Bool) (ch : Ch) (w : World)
+    (h16 : ∀ a, ch.ip = some a → a.length = 16) : validate h cfg dbOk ch w ≠ .crash := by
+  unfold validate
+  split
+  · simp
+  · cases htyp : ch.typ <;> cases w <;> simp only <;> try simp
+    · rename_i r
+      obtain ⟨o, ho⟩ := tlsalpn01Validate_total h cfg dbOk ch r h16
+      simp [ho]
+    · rename_i i
+      obtain ⟨o, ho⟩ := device_attest_total h dbOk ch i
+      simp [ho]
 
 /-! ## 9. the dispatcher: nothing else ever turns a challenge valid -/
 
